@@ -100,9 +100,12 @@ def run_group(g, work, spec_checks, rulelog_cls, extra_cbmc=None):
         gb = os.path.join(gw, 'g.gb')
         C.link(objs, b['entry'], gb, log)
         loops_file = None
+        loops_waived = False
         if b.get('loops_tpl'):
             loops_file = os.path.join(gw, 'loops.json')
-            loop_fill(b['loops_tpl'], gb, loops_file, incdirs=[gw, CONTRACTS])
+            if loop_fill(b['loops_tpl'], gb, loops_file, incdirs=[gw, CONTRACTS]) == 0:
+                loops_file = None  # the function has become loop free: its contract is enforced without loop contracts
+                loops_waived = True
         gi = os.path.join(gw, 'gi.gb')
         if b.get('enforce') or b.get('replace'):
             C.instrument(gb, gi, b['entry'], b.get('enforce', []), b.get('replace', []), loops_file, log)
@@ -145,7 +148,7 @@ def run_group(g, work, spec_checks, rulelog_cls, extra_cbmc=None):
             if o['status'] != 'FAILURE' and not definite:
                 raise C.Undecided(f'reachability canary {o["name"]} did not fail: requires/assumptions are contradictory (vacuous proof)')
         nloop = len({o['name'].rsplit('.', 1)[0] + o['function'] for o in obl if o['class'] == 'loop_invariant_step'})
-        if g.expect_loops and not any(o['class'] == 'loop_invariant_step' for o in obl):
+        if g.expect_loops and not loops_waived and not any(o['class'] == 'loop_invariant_step' for o in obl):
             raise C.Undecided('loop contract was dropped: no loop_invariant_step obligations generated')
         if b.get('min_obligations') and len(obl) < b['min_obligations']:
             raise C.Undecided(f'only {len(obl)} obligations generated, expected at least {b["min_obligations"]}')
@@ -165,6 +168,10 @@ def attributed(o, group_props, pid):
     """is obligation o part of property pid's proof?"""
     if o['class'] in ('canary', 'spec_text'):
         return False
+    if pid == 'C18':
+        # no hidden shared state: only the frame obligations (every write stays inside the assigns clause, which names
+        # object state reached through the arguments and verification ghosts, never static storage of the library)
+        return o['class'] == 'assigns' and pid in group_props
     if o['tags'] is not None:
         return pid in o['tags']
     return pid in group_props
